@@ -217,10 +217,10 @@ public:
       }
       else
       {
-         // switch items
+         // switch items:  retain the new item before releasing the old one, since the old item may be holding the only other reference to the new item
+         if ((item)&&(doRefCount)) item->IncrementRefCount();
          UnrefItem();
          _item.SetPointerAndBits(item, BooleansToBitChord((item!=NULL), doRefCount));
-         RefItem();
       }
    }
 
